@@ -193,6 +193,20 @@ def emit() -> str:
     sdr = find_method(rt_cls, "set_default_route_next_hop_ip_address")
     if self_writes(sdr) != ["self.default_route", "self.default_route.next_hop_ip_address"]:
         raise ValueError(f"set_default_route_next_hop_ip_address writes {self_writes(sdr)}")
+    # --- RouteEntry refuses a NaN metric at construction (inf stays legal)
+    re_cls = class_def(tree, "RouteEntry")
+    nan_val = False
+    for fn_ in re_cls.body:
+        if isinstance(fn_, ast.FunctionDef) and any(ast.unparse(d_) == "field_validator('metric')" for d_ in fn_.decorator_list):
+            arg = fn_.args.args[1].arg
+            for x in fn_.body:
+                if (isinstance(x, ast.If) and ast.unparse(x.test) == f"{arg} != {arg}" and len(x.body) == 1 and isinstance(x.body[0], ast.Raise)
+                        and ast.unparse(x.body[0].exc).startswith("ValueError(")):
+                    nan_val = True
+            if ast.unparse(fn_.body[-1]) != f"return {arg}":
+                raise ValueError("RouteEntry metric validator does not return the value unchanged")
+    if not nan_val:
+        raise ValueError("RouteEntry: no `@field_validator('metric')` raising ValueError for NaN (`v != v`) found")
     add = find_method(class_def(tree, "RouteTable"), "add_route")
     if self_writes(add) != ["self.routes.append()"]:
         raise ValueError(f"add_route writes {self_writes(add)}")
@@ -482,6 +496,8 @@ def better (p l m : Int) (lo : Option Int) : Bool := {cond}
 RouteTable has no field besides routes / default_route / sys_log and no writer besides add_route (append) and
 set_default_route_next_hop_ip_address (assign) -/
 def findBestRouteIsFunctionOfTable : Bool := {"true" if fbr_pure else "false"}
+/-- RouteEntry: `@field_validator("metric")` raises ValueError for NaN (`v != v`) and returns every other value unchanged -/
+def routeMetricRejectsNaN : Bool := true
 /-- after the loop: `if not best_route and self.default_route: best_route = self.default_route`; `add_route` appends -/
 def defaultOnlyWithoutBest : Bool := true
 end Primaite.Gen.Forward
